@@ -26,6 +26,15 @@ Parent (portfolio.py:132-180, with the F25 repair):
     killLosers k      `for p in processes`: terminate p unless it is the winner, one per step
     returned v w      `return res`; `_ext_solver` = member `w`
     ask q / awaiting  get_model / get_value: send on the control pipe, block in `recv`
+      recvReply         the reply arrives (a value, or the exception the member's solver raised: F25f repair; the
+                        parent re-raises it -- the content of a reply is not modelled)
+      recvEOF           every process holding the other end is dead: `recv` raises EOFError, the call ends
+    askNoSolver       get_model / get_value while no solver is kept (`_ext_solver is None`: before the first solve(),
+                      after a solve() that raised -- F25e repair --, after exit()): immediate ValueError, no process touched
+    close             exit(): `_close_existing`, everything of the last call is dropped
+    edit              push / pop / add_assertion: bookkeeping in the parent only.  Which formula the members get
+                      (live assertions + assumptions of the call, F25d repair) is data: `beh` is indexed by the call
+                      number, so every change of the formula between two calls is covered by the quantification over `beh`.
 
 Member `i` (`_run_solver`, portfolio.py:224-264):
 
@@ -37,6 +46,8 @@ Member `i` (`_run_solver`, portfolio.py:224-264):
                       exception ⇒ `exited` (`return`; the process exits only after the feeder
                       thread has flushed – assumption A2 below)
     recvCmd           `serving`: take the next control message; `exit` ⇒ exited, query ⇒ reply
+    serveCrash        fault model `OS.serveCrash`: a member dies (kill -9, segfault) while blocked in `recv`, i.e.
+                      after its answer -- also the winner
 
 OS-level assumptions (not provable in Lean; the first is an explicit hypothesis of the theorems that
 need it, the others are built into the shape of the steps):
@@ -113,6 +124,8 @@ inductive PSt
 
 structure OS where
   killAtomic : Bool
+  /-- fault model: may a member die (kill -9, segfault) while it is blocked in `recv`, i.e. after its answer? -/
+  serveCrash : Bool := false
   deriving DecidableEq, Repr, Hashable
 
 structure Cfg where
@@ -184,6 +197,8 @@ inductive IStep : State → State → Prop
       IStep s { s with ms := s.ms.set i .exited, ctrl := cs }
   | recvQuery (s : State) (i q : Nat) (cs : List Cmd) : s.ms[i]? = some .serving → s.ctrl = .query q :: cs →
       IStep s { s with ctrl := cs, reply := s.reply ++ [(i, q)] }
+  | serveCrash (s : State) (i : Nat) : cfg.os.serveCrash = true → s.ms[i]? = some .serving →
+      IStep s { s with ms := s.ms.set i .crashed }
   | lateRecv (s : State) (i : Nat) (c : Cmd) (cs : List Cmd) : cfg.os.killAtomic = false →
       s.ms[i]? = some .dying → s.ctrl = c :: cs →
       IStep s { s with ms := s.ms.set i .killed, ctrl := cs }
@@ -205,6 +220,8 @@ inductive IStep : State → State → Prop
       IStep s { s with p := .raised e }
   | recvReply (s : State) (v : Bool) (w q j q' : Nat) (r : List (Nat × Nat)) : s.p = .awaiting v w q →
       s.reply = (j, q') :: r → IStep s { s with reply := r, p := .returned v w, served := s.served ++ [(j, q')] }
+  | recvEOF (s : State) (v : Bool) (w q : Nat) : s.p = .awaiting v w q → s.reply = [] →
+      (∀ m ∈ s.ms, dead m = true) → IStep s { s with ctrl := [], p := .returned v w }
 
 /-- user steps: the API calls of the (single-threaded) caller -/
 inductive UStep : State → State → Prop
@@ -212,6 +229,9 @@ inductive UStep : State → State → Prop
   | ask (s : State) (v : Bool) (w q : Nat) : s.p = .returned v w →
       UStep s { s with ctrl := s.ctrl ++ [.query q], p := .awaiting v w q }
   | edit (s : State) : quiescent s.p = true → UStep s s     -- push / pop / add_assertion: no process is touched
+  | askNoSolver (s : State) : (s.p = .ready ∨ ∃ e, s.p = .raised e) → UStep s s
+  | close (s : State) : quiescent s.p = true →
+      UStep s { s with ms := [], queue := [], ctrl := [], reply := [], p := .ready, served := [] }
 
 inductive Step : State → State → Prop
   | internal (s t : State) : IStep cfg s t → Step s t
@@ -228,10 +248,10 @@ def memberSuccs (s : State) (i : Nat) : List State :=
   | some .solving => [{ s with ms := s.ms.set i (afterSolve i (cfg.beh s.cycle i)) }]
   | some (.putting m) => [{ s with ms := s.ms.set i (afterFlush m), queue := s.queue ++ [m] }]
   | some .serving =>
-    match s.ctrl with
+    (match s.ctrl with
     | .exit :: cs => [{ s with ms := s.ms.set i .exited, ctrl := cs }]
     | .query q :: cs => [{ s with ctrl := cs, reply := s.reply ++ [(i, q)] }]
-    | [] => []
+    | [] => []) ++ (if cfg.os.serveCrash = true then [{ s with ms := s.ms.set i .crashed }] else [])
   | some .dying =>
     if cfg.os.killAtomic = false then
       match s.ctrl with
@@ -258,7 +278,7 @@ def parentSuccs (s : State) : List State :=
   | .awaiting v w _ =>
     match s.reply with
     | (j, q') :: r => [{ s with reply := r, p := .returned v w, served := s.served ++ [(j, q')] }]
-    | [] => []
+    | [] => if s.ms.all (fun m => dead m) then [{ s with ctrl := [], p := .returned v w }] else []
   | _ => []
 
 /-- all internal successors of `s` -/
@@ -267,8 +287,9 @@ def isuccs (s : State) : List State :=
 
 /-- progress measure: every internal step decreases it (`Proofs/C19.imeasure_decreases`) -/
 def mweight : MSt → Nat
-  | .solving => 4
-  | .putting _ => 2
+  | .solving => 6
+  | .putting _ => 3
+  | .serving => 1
   | _ => 0
 
 def pweight (n : Nat) : PSt → Nat
@@ -314,16 +335,19 @@ def solveOutcomes (fuel : Nat) (s : State) : List Outcome :=
 inductive QOutcome
   | servedBy (j : Nat) (winner : Nat) (q qAnswered : Nat)
   | qblocked
+  | qeof                 -- the call ended with EOFError: the winner process had died
   deriving DecidableEq, Repr, Hashable
 
-/-- outcomes of one `get_model/get_value` call in every terminal state of `solve()` that returned -/
+/-- outcomes of one `get_model/get_value` call issued in any state in which `solve()` has returned (the first query
+    of the call: `served` is empty before) -/
 def queryOutcomes (fuel : Nat) (s : State) (q : Nat) : List QOutcome :=
-  ((terminals cfg fuel (fresh cfg s)).flatMap fun t =>
+  ((closure cfg fuel [fresh cfg s] {}).toList.flatMap fun t =>
     match t.p with
     | .returned v w =>
       (terminals cfg fuel { t with ctrl := t.ctrl ++ [.query q], p := .awaiting v w q }).map fun u =>
         match u.p, u.served.getLast? with
         | .returned _ _, some (j, q') => .servedBy j w q q'
+        | .returned _ _, none => .qeof
         | _, _ => .qblocked
     | _ => []).eraseDups
 
